@@ -170,6 +170,16 @@ func (e *Engine) assumeGlobals(st *State, c *specCtx) {
 func (e *Engine) atReturn(st *State, fn *ssa.Function, ct *Contract, env map[string]specBind, res Val, pkg *types.Package) {
 	fr := e.cur
 	fr.Returns++
+	// results that point to lazily allocated objects: move them into the heap so that contracts can talk about them
+	if res.Elems != nil {
+		els := append([]Val(nil), res.Elems...)
+		for i := range els {
+			els[i] = e.plainPtr(st, els[i])
+		}
+		res = Val{Elems: els}
+	} else if len(res.T) > 0 {
+		res = e.plainPtr(st, res)
+	}
 	e.canary(st, "cover.return", fn.Pos())
 	if e.initPkg != "" {
 		gc := &specCtx{e: e, st: st, heap: st.Heap, oldHeap: e.entryHeap, oldAlloc: e.entryAlloc, env: map[string]specBind{}, pkg: pkg}
